@@ -12,7 +12,7 @@ use proptest::prelude::*;
 use serde::{Deserialize, Serialize};
 use serde_json::json;
 
-pub const RULE: &str = "generated: credential strings from a grammar (1-8 parts; each part the expected value, a proper prefix, a suffix-extended, case-changed, empty or one-byte-edited variant, another region/service, aws4_request near-misses; dates = request UTC date, +-1 day, the server's date, the date in the request's local offset, malformed) x server region/service pairs (incl. prefixes of one another) x timestamps near midnight with offsets. Each request is signed under the key of the credential's OWN scope and the scripted provider hands out that foreign key, so only the scope check can refuse it. A second route feeds arbitrary credential strings to the authenticator's prevalidation (crate feature `unstable`). Oracle: parts != 5 => IncompleteSignature/400; any scope component unequal => SignatureDoesNotMatch/403 and zero provider calls; all equal => Ok and exactly one provider call with (access key, token, UTC date of the request instant, server region, server service). Non-trivial: exactly one component deviates (near miss) or the request is valid under a foreign scope or the UTC date differs from the local/server date; distinct by (credential, server config, timestamp).";
+pub const RULE: &str = "generated: credential strings from a grammar (1-8 parts; each part the expected value, a proper prefix, a suffix-extended, case-changed, empty or one-byte-edited variant, another region/service, aws4_request near-misses; dates = request UTC date, +-1 day, the server's date, the date in the request's local offset, malformed) x server region/service pairs (incl. prefixes of one another) x timestamps near midnight with offsets. Each request is signed under the key of the credential's OWN scope and the scripted provider hands out that foreign key, so only the scope check can refuse it. A second route feeds arbitrary credential strings to the authenticator's prevalidation (crate feature `unstable`). A third route presents a request accepted under its own configuration to another one (other region, other service, both, exchanged, server a day later) directly afterwards on the same thread, end to end and through prevalidate. Oracle: parts != 5 => IncompleteSignature/400; any scope component unequal => SignatureDoesNotMatch/403 and zero provider calls; all equal => Ok and exactly one provider call with (access key, token, UTC date of the request instant, server region, server service). Non-trivial: exactly one component deviates (near miss) or the request is valid under a foreign scope or the UTC date differs from the local/server date; distinct by (credential, server config, timestamp).";
 
 #[derive(Clone, Debug, Serialize, Deserialize)]
 pub struct ScopeCase {
